@@ -42,6 +42,8 @@ def match(exp, obs):
 # arguments at the limits of size_t/long: the specification's stand-ins and the text the drivers parse
 HUGE, SHUGE = 1000000, 500000
 HKEYS = ("pos", "off", "n", "len", "nblk", "esz", "hl", "cap")
+# allocations beyond 1 GB fail in the drivers (safety net: a wrongly accepted huge request must not eat the machine)
+DRV_ENV = {"ASAN_OPTIONS": vlib.ASAN_ENV + ":max_allocation_size_mb=1024"}
 
 
 def symbolic(v):
@@ -250,8 +252,6 @@ def gen_histories(ck, n, steps, nh=4):
                 {"a": "slice", "arg": {"h": hh, "off": p, "data": [], "fill": 0, "hl": huge(p)}},
                 {"a": "reserve", "arg": {"h": hh, "len": huge(), "typ": typ[h] if typ[h] != "none" and rng.random() < 0.6
                                          else rng.choice(["raw", "c", "n"])}},
-                {"a": "slicewrite", "arg": {"h": hh, "off": 0, "len": 0, "nblk": huge(), "esz": rng.choice([1, 2, 8]),
-                                            "data": [], "zero": 1}},
                 {"a": "slicewrite", "arg": {"h": hh, "off": 0, "len": 0, "nblk": rng.choice([1, 2, 3]), "esz": huge(),
                                             "data": [], "zero": 1}},
             ])
@@ -415,7 +415,7 @@ def do_replay(api, gencfg, module="Gen_CowArray"):
     behs = vlib.parse_behaviours(gen.out)
     gen.out = ""
     exe = build(api)
-    recs, _ = vlib.run_driver(exe, script(behs), timeout=1500)
+    recs, _ = vlib.run_driver(exe, script(behs), timeout=1500, env=DRV_ENV)
     mms, stats = compare(behs, recs, api)
     found = []
     for mm in mms:
@@ -454,7 +454,7 @@ XAPIS = ("xarr", "xtyped", "xunique", "xptr", "xmap")
 def do_trace(ck, cfg):
     exe = build("c")
     hist = gen_histories(ck, cfg["nhist"], cfg["steps"])
-    recs2, _ = vlib.run_driver(exe, script(hist))
+    recs2, _ = vlib.run_driver(exe, script(hist), env=DRV_ENV)
     events = vlib.merge_trace(hist, recs2)
     return hist, recs2, events
 
@@ -585,7 +585,7 @@ def replay(path):
         return 2
     api = det.get("api", "c")
     exe = build(api)
-    recs, err = vlib.run_driver(exe, script([beh]))
+    recs, err = vlib.run_driver(exe, script([beh]), env=DRV_ENV)
     if all("exp" in s for s in beh):
         mms, _ = compare([beh], recs, api)
         for mm in mms:
